@@ -74,6 +74,9 @@ type c09WOp struct {
 	XRef    *c09Key   `json:"xref"` // prop: the XR's writeConnectionSecretToRef
 	Fault   *c09Fault `json:"fault"`
 	Swap    bool      `json:"swap"`
+	// prop: status.connectionDetails.lastPublishedTime of the claim / of the XR (0 = unset)
+	CTime int `json:"ctime,omitempty"`
+	XTime int `json:"xtime,omitempty"`
 }
 
 type c09WorldScn struct {
@@ -456,6 +459,7 @@ func c09WorldRun(s c09WorldScn) (c09WorldObs, []Mon) {
 				cm.SetWriteConnectionSecretToReference(&xpv1.LocalSecretReference{Name: *op.CRef})
 				target = &c09Key{op.CNS, *op.CRef}
 			}
+			c09SetTimes(cm, xr, op.CTime, op.XTime)
 			swapped := false
 			if op.Swap && target != nil && op.XRef != nil {
 				// the concurrent writer: when the write to the claim's secret is attempted it has just
@@ -511,6 +515,9 @@ func c09WorldRun(s c09WorldScn) (c09WorldObs, []Mon) {
 			}
 			if (changed || (p && err == nil)) && !swapped && !(aok && srcOK && c09SameData(a.Data, sb.Data)) {
 				mon("C09:copy-not-exact", "claim secret data differs from the XR secret data after a propagation that wrote / reported success")
+			}
+			if err == nil && !swapped && srcOK && !(aok && c09SameData(a.Data, sb.Data)) {
+				mon("C09:claim-secret-stale", fmt.Sprintf("PropagateConnection returned (%v, nil) but the claim's secret (present=%v) is not a copy of its XR's secret (claim lastPublishedTime=%d, XR lastPublishedTime=%d)", p, aok, op.CTime, op.XTime))
 			}
 			if swapped && aok {
 				for _, kv := range a.Data {
@@ -649,6 +656,9 @@ func c09WorldGen(r *Rng) c09WorldScn {
 			}
 		} else {
 			op = c09WOp{Kind: "prop", Me: Pick(r, c09Claims), CNS: Pick(r, c09NSs[:2]), XR: Pick(r, c09XRs), Details: []c09KV{}}
+			if r.Bool() {
+				op.CTime, op.XTime = r.Intn(4), r.Intn(4)
+			}
 			if !r.Chance(1, 8) {
 				n := Pick(r, c09Names)
 				op.CRef = &n
